@@ -1,16 +1,21 @@
 // C01 harness: histories of write / overwrite / delete / read / mark-read-only on a
-// real storage.Store volume (NeedleMapInMemory) in a temp dir.  Two layers are
+// real storage.Store volume (NeedleMapInMemory) in a temp dir.  Three layers are
 // driven on the same volume: the storage API (Store.WriteVolumeNeedle,
-// ReadVolumeNeedle, DeleteVolumeNeedle, MarkVolumeReadonly) and the real HTTP
-// handlers (PostHandler, GetOrHeadHandler, DeleteHandler) of a VolumeServer built
-// over that Store by the verif hook NewVerifVolumeServer.
+// ReadVolumeNeedle, DeleteVolumeNeedle, MarkVolumeReadonly), the real HTTP handlers
+// (PostHandler, GetOrHeadHandler with GET/HEAD in every request form, DeleteHandler)
+// and the gRPC method BatchDelete of a VolumeServer built over that Store by the
+// verif hook NewVerifVolumeServer.  Time is a logical clock: when it jumps, the
+// AppendAtNs stamps of all stored records are moved back by the same amount, so the
+// TTL test of readNeedle (which reads the wall clock) sees the jump.
 package main
 
 import (
 	"bytes"
+	"context"
 	"encoding/json"
 	"flag"
 	"fmt"
+	"mime"
 	"mime/multipart"
 	"net/http"
 	"net/http/httptest"
@@ -21,8 +26,10 @@ import (
 	"strings"
 	"time"
 
+	"github.com/chrislusf/seaweedfs/weed/pb/volume_server_pb"
 	weed_server "github.com/chrislusf/seaweedfs/weed/server"
 	"github.com/chrislusf/seaweedfs/weed/storage"
+	"github.com/chrislusf/seaweedfs/weed/storage/idx"
 	"github.com/chrislusf/seaweedfs/weed/storage/needle"
 	"github.com/chrislusf/seaweedfs/weed/storage/types"
 	"github.com/chrislusf/seaweedfs/weed/util"
@@ -55,6 +62,7 @@ type up struct {
 	ttl    string
 	tc, tu byte
 	gz     bool
+	fsync  bool // ?fsync=true (not part of the model: Store.WriteVolumeNeedle only batches while stopping)
 }
 
 func pat(tag, n int) []byte {
@@ -65,10 +73,26 @@ func pat(tag, n int) []byte {
 	return b
 }
 
+// gzip streams the harness stores, with what util.DecompressData makes of them (the
+// model's decompression oracle, emitted with every case that uses one)
+var (
+	gzPlain = map[string][]byte{}
+	gzOrder []string
+)
+
+func noteGz(z []byte) []byte {
+	if _, ok := gzPlain[string(z)]; !ok {
+		p, _ := util.DecompressData(z) // on a broken stream: whatever came out before the error
+		gzPlain[string(z)] = p
+		gzOrder = append(gzOrder, string(z))
+	}
+	return z
+}
+
 func gz(b []byte) []byte {
 	z, err := util.GzipData(b)
 	hx.Must(err)
-	return z
+	return noteGz(z)
 }
 
 // dataTerm prints a payload: as `pat tag len` when it is one of the generated patterns.
@@ -96,7 +120,10 @@ var (
 	dictLets []string
 )
 
-func dictReset() { dictName, dictLets = map[string]string{}, nil }
+func dictReset() {
+	dictName, dictLets = map[string]string{}, nil
+	gzPlain, gzOrder = map[string][]byte{}, nil
+}
 
 func bytesTerm(b []byte) string {
 	if len(b) < 3 {
@@ -111,8 +138,33 @@ func bytesTerm(b []byte) string {
 	return nm
 }
 
+// literal prints a byte string; runs of 32 or more equal bytes become `rep b n`
 func literal(b []byte) string {
-	if len(b) > 24 {
+	if len(b) > 40 {
+		for i := 0; i < len(b); {
+			j := i
+			for j < len(b) && b[j] == b[i] {
+				j++
+			}
+			if j-i >= 32 {
+				parts := []string{}
+				if i > 0 {
+					parts = append(parts, literal(b[:i]))
+				}
+				parts = append(parts, fmt.Sprintf("(rep %d %d)", b[i], j-i))
+				if j < len(b) {
+					parts = append(parts, literal(b[j:]))
+				}
+				t := parts[len(parts)-1]
+				for k := len(parts) - 2; k >= 0; k-- {
+					t = "(cat " + parts[k] + " " + t + ")"
+				}
+				return t
+			}
+			i = j
+		}
+	}
+	if len(b) >= 25 {
 		same := true
 		for _, c := range b {
 			if c != b[0] {
@@ -168,12 +220,11 @@ func (p up) term() string {
 }
 
 func viewTerm(cookie uint32, size int32, data []byte, flags byte, name, mime, pairs []byte, lastmod uint64, tc, tu byte) string {
+	if size == 0 && len(data) == 0 && flags == 0 && len(name) == 0 && len(mime) == 0 && len(pairs) == 0 && lastmod == 0 && tc == 0 && tu == 0 {
+		return fmt.Sprintf("(bv %d)", cookie)
+	}
 	return fmt.Sprintf("(mkv %s %d %s %d %s %s %s %s %d %d)", u(uint64(cookie)), size, dataTerm(data), flags,
 		bytesTerm(name), bytesTerm(mime), bytesTerm(pairs), u(lastmod), tc, tu)
-}
-
-func blankView(cookie uint32) string {
-	return fmt.Sprintf("(bv %d)", cookie)
 }
 
 func zterm(v int64) string {
@@ -254,13 +305,43 @@ type env struct {
 	evs, impl, canon []string
 	served           bool
 	nops             int
+	clock            uint64 // logical clock, ns
 }
 
 func (e *env) emit(op, out, canon string) {
 	e.nops++
-	e.evs = append(e.evs, fmt.Sprintf("(%d, %s)", e.nops, op)) // logical clock: one tick (ns) per operation
+	e.clock++ // one tick (ns) per operation
+	e.evs = append(e.evs, fmt.Sprintf("(%d, %s)", e.clock, op))
 	e.impl = append(e.impl, out)
 	e.canon = append(e.canon, canon)
+}
+
+// advance moves the logical clock forward by whole minutes; on the real volume every stored
+// record gets that much older (AppendAtNs is outside the CRC).
+func (e *env) advance(minutes uint64) {
+	delta := minutes * 60 * 1000000000
+	v := e.s.GetVolume(e.vid)
+	end, _, err := v.DataBackend.GetStat()
+	hx.Must(err)
+	off := int64(v.SuperBlock.BlockSize())
+	b := make([]byte, types.TimestampSize)
+	for off < end {
+		n, _, _, err := needle.ReadNeedleHeader(v.DataBackend, v.Version(), off)
+		hx.Must(err)
+		tsOff := off + int64(types.NeedleHeaderSize) + int64(n.Size) + int64(needle.NeedleChecksumSize)
+		_, err = v.DataBackend.ReadAt(b, tsOff)
+		hx.Must(err)
+		util.Uint64toBytes(b, util.BytesToUint64(b)-delta)
+		_, err = v.DataBackend.WriteAt(b, tsOff)
+		hx.Must(err)
+		off += needle.GetActualSize(n.Size, v.Version())
+	}
+	if off != end {
+		panic("record walk does not end at the end of the .dat file")
+	}
+	e.clock += delta
+	e.canon = append(e.canon, fmt.Sprintf("T+%dm", minutes))
+	e.out.Count("clock-jump", 1)
 }
 
 func (e *env) write(n nd) {
@@ -278,8 +359,9 @@ func (e *env) write(n nd) {
 	x.Checksum = needle.NewCRC(x.Data)
 	unchanged, err := e.s.WriteVolumeNeedle(e.vid, x, false)
 	size := x.Size
-	e.emit("Write "+n.term(), fmt.Sprintf("OWrite %s %s %d", errClass(err), hx.Bool(unchanged), size),
-		fmt.Sprintf("W%d.%x.%d.%x.f%x.%s.%s.%s.%d.%d.%d", n.id, n.cookie, len(n.data), needle.NewCRC(n.data).Value(), n.flags, n.name, n.mime, n.pairs, n.lastmod, n.tc, n.tu))
+	e.emit("Wr "+n.term(), fmt.Sprintf("oW %s %s %d", errClass(err), hx.Bool(unchanged), size),
+		fmt.Sprintf("W%d.%x.%d.%x.f%x.%d:%.20s.%d:%.20s.%d:%.20s.%d.%d.%d", n.id, n.cookie, len(n.data), needle.NewCRC(n.data).Value(), n.flags,
+			len(n.name), n.name, len(n.mime), n.mime, len(n.pairs), n.pairs, n.lastmod, n.tc, n.tu))
 	e.out.Count("op:write", 1)
 	e.out.Count("write:"+errClass(err)+map[bool]string{true: "-unchanged", false: ""}[unchanged], 1)
 	e.out.Count(fmt.Sprintf("size:%d", len(n.data)), 1)
@@ -308,6 +390,9 @@ func (e *env) post(p up) {
 	if p.ttl != "" {
 		q += "&ttl=" + p.ttl
 	}
+	if p.fsync {
+		q += "&fsync=true"
+	}
 	req := httptest.NewRequest("POST", fidPath(e.vid, p.id, p.cookie)+"?"+q, &b)
 	req.Header.Set("Content-Type", mw.FormDataContentType())
 	for k, v := range p.pairs {
@@ -322,8 +407,13 @@ func (e *env) post(p up) {
 		msg, _ := m["error"].(string)
 		cls = errClassMsg(msg, nil)
 	}
-	e.emit("Post "+p.term(), fmt.Sprintf("OPost %d %s", w.status(), cls),
-		fmt.Sprintf("P%d.%x.%d.%x.%s.%s.%v.%d.%s.%v", p.id, p.cookie, len(p.data), needle.NewCRC(p.data).Value(), p.name, p.ctype, p.pairs, p.ts, p.ttl, p.gz))
+	pl := 0
+	for _, v := range p.pairs {
+		pl += len(v)
+	}
+	e.emit("Po "+p.term(), fmt.Sprintf("oP %d %s", w.status(), cls),
+		fmt.Sprintf("P%d.%x.%d.%x.%d:%.20s.%d:%.20s.%d/%d.%d.%s.%v.%v", p.id, p.cookie, len(p.data), needle.NewCRC(p.data).Value(),
+			len(p.name), p.name, len(p.ctype), p.ctype, len(p.pairs), pl, p.ts, p.ttl, p.gz, p.fsync))
 	e.out.Count("op:post", 1)
 	e.out.Count(fmt.Sprintf("post:%d", w.status()), 1)
 	e.out.Count(fmt.Sprintf("size:%d", len(p.data)), 1)
@@ -331,15 +421,8 @@ func (e *env) post(p up) {
 
 var pairKeys = []string{"K1", "K2"}
 
-func (e *env) get(id uint64, cookie uint32, rd bool) {
-	url := fidPath(e.vid, id, cookie)
-	if rd {
-		url += "?readDeleted=true"
-	}
-	req := httptest.NewRequest("GET", url, nil)
-	req.Header.Set("Accept-Encoding", "gzip")
-	w := newRW()
-	e.vs.GetOrHeadHandler(w, req)
+// what a GET/HEAD answered: the hview term and Content-Length
+func (e *env) readResponse(w *rw) (string, uint64) {
 	name := ""
 	if cd := w.h.Get("Content-Disposition"); cd != "" {
 		const pre = `inline; filename="`
@@ -359,22 +442,101 @@ func (e *env) get(id uint64, cookie uint32, rd bool) {
 		}
 	}
 	body := w.body.Bytes()
-	if w.status() == 200 && len(body) > 0 {
+	var clen uint64
+	if cl := w.h.Get("Content-Length"); cl != "" {
+		clen, _ = strconv.ParseUint(cl, 10, 64)
+	}
+	if w.status() == 200 && (len(body) > 0 || clen > 0) {
 		e.served = true
 	}
 	ctype, isGz := w.h.Get("Content-Type"), w.h.Get("Content-Encoding") == "gzip"
-	obs := fmt.Sprintf("OGet %d (mkh %s %s %s %s %s %s)", w.status(), dataTerm(body), bytesTerm([]byte(name)),
-		bytesTerm([]byte(ctype)), bytesTerm(pairsJSON(pm)), u(lastmod), hx.Bool(isGz))
-	if w.status() == 404 && len(body) == 0 && name == "" && ctype == "" && len(pm) == 0 && lastmod == 0 && !isGz {
+	if w.status() == 404 && len(body) == 0 && name == "" && ctype == "" && len(pm) == 0 && lastmod == 0 && !isGz && clen == 0 {
+		return "", 0
+	}
+	return fmt.Sprintf("(mkh %s %s %s %s %s %s)", dataTerm(body), bytesTerm([]byte(name)),
+		bytesTerm([]byte(ctype)), bytesTerm(pairsJSON(pm)), u(lastmod), hx.Bool(isGz)), clen
+}
+
+// the plain GET of the first round: /vid,fid with Accept-Encoding: gzip
+func (e *env) get(id uint64, cookie uint32, rd bool) {
+	url := fidPath(e.vid, id, cookie)
+	if rd {
+		url += "?readDeleted=true"
+	}
+	req := httptest.NewRequest("GET", url, nil)
+	req.Header.Set("Accept-Encoding", "gzip")
+	w := newRW()
+	e.vs.GetOrHeadHandler(w, req)
+	hv, _ := e.readResponse(w)
+	obs := fmt.Sprintf("oG %d %s", w.status(), hv)
+	if hv == "" {
 		obs = "g404"
 	}
-	e.emit(fmt.Sprintf("Get %d %d %s", id, cookie, hx.Bool(rd)), obs, fmt.Sprintf("G%d.%x.%v", id, cookie, rd))
+	e.emit(fmt.Sprintf("Ge %d %d %s", id, cookie, hx.Bool(rd)), obs, fmt.Sprintf("G%d.%x.%v", id, cookie, rd))
 	e.out.Count("op:get", 1)
 	e.out.Count(fmt.Sprintf("get:%d", w.status()), 1)
 }
 
-func (e *env) del(id uint64, cookie uint32) {
-	req := httptest.NewRequest("DELETE", fidPath(e.vid, id, cookie), nil)
+// GET / HEAD in any request form.  form: 0 /vid,fid  1 /vid,fid.ext  2 /vid/fid  3 /vid/fid.ext
+// 4 /vid/fid/urlName
+func (e *env) getx(id uint64, cookie uint32, rd, acceptGz, head bool, form int, urlName string) {
+	fid := fmt.Sprintf("%x%08x", id, cookie)
+	var url string
+	modelName := ""
+	switch form {
+	case 0:
+		url = fmt.Sprintf("/%d,%s", e.vid, fid)
+	case 1:
+		url = fmt.Sprintf("/%d,%s.zz9", e.vid, fid)
+	case 2:
+		url = fmt.Sprintf("/%d/%s", e.vid, fid)
+	case 3:
+		url = fmt.Sprintf("/%d/%s.css", e.vid, fid)
+	default:
+		url = fmt.Sprintf("/%d/%s/%s", e.vid, fid, urlName)
+		modelName = urlName
+	}
+	if rd {
+		url += "?readDeleted=true"
+	}
+	method := "GET"
+	if head {
+		method = "HEAD"
+	}
+	req := httptest.NewRequest(method, url, nil)
+	if acceptGz {
+		req.Header.Set("Accept-Encoding", "gzip")
+	}
+	w := newRW()
+	e.vs.GetOrHeadHandler(w, req)
+	hv, clen := e.readResponse(w)
+	obs := fmt.Sprintf("XOGet %d %s %d", w.status(), hv, clen)
+	if hv == "" {
+		obs = "x404"
+	}
+	e.emit(fmt.Sprintf("Gx %d %d %s %s %s %s", id, cookie, hx.Bool(rd), hx.Bool(acceptGz), hx.Bool(head), bytesTerm([]byte(modelName))), obs,
+		fmt.Sprintf("GX%d.%x.%v.%v.%v.%d.%s", id, cookie, rd, acceptGz, head, form, urlName))
+	e.out.Count("op:getx", 1)
+	e.out.Count(fmt.Sprintf("getx:%d", w.status()), 1)
+	e.out.Count(fmt.Sprintf("getx-form:%d", form), 1)
+	if head {
+		e.out.Count("getx:head", 1)
+	}
+	if !acceptGz {
+		e.out.Count("getx:no-accept-encoding", 1)
+	}
+}
+
+// HTTP DELETE; variant 1 adds ?ts=, variant 2 ?type=replicate (neither is visible to reads)
+func (e *env) del(id uint64, cookie uint32, variant int) {
+	url := fidPath(e.vid, id, cookie)
+	switch variant {
+	case 1:
+		url += "?ts=77"
+	case 2:
+		url += "?type=replicate"
+	}
+	req := httptest.NewRequest("DELETE", url, nil)
 	w := newRW()
 	e.vs.DeleteHandler(w, req)
 	var m map[string]interface{}
@@ -383,9 +545,38 @@ func (e *env) del(id uint64, cookie uint32) {
 	if f, ok := m["size"].(float64); ok {
 		size = uint64(f)
 	}
-	e.emit(fmt.Sprintf("Del %d %d", id, cookie), fmt.Sprintf("ODel %d %d", w.status(), size), fmt.Sprintf("D%d.%x", id, cookie))
+	e.emit(fmt.Sprintf("De %d %d", id, cookie), fmt.Sprintf("oD %d %d", w.status(), size), fmt.Sprintf("D%d.%x.%d", id, cookie, variant))
 	e.out.Count("op:del", 1)
 	e.out.Count(fmt.Sprintf("del:%d", w.status()), 1)
+}
+
+type fidc struct {
+	id     uint64
+	cookie uint32
+}
+
+// gRPC BatchDelete, called as the generated server stub would call it
+func (e *env) batch(fids []fidc, skip bool) {
+	req := &volume_server_pb.BatchDeleteRequest{SkipCookieCheck: skip}
+	var ts, cs []string
+	for _, f := range fids {
+		req.FileIds = append(req.FileIds, fmt.Sprintf("%d,%x%08x", e.vid, f.id, f.cookie))
+		ts = append(ts, fmt.Sprintf("(%d, %d)", f.id, f.cookie))
+		cs = append(cs, fmt.Sprintf("%d.%x", f.id, f.cookie))
+	}
+	resp, err := e.vs.BatchDelete(context.Background(), req)
+	hx.Must(err)
+	var rs []string
+	for _, r := range resp.Results {
+		rs = append(rs, fmt.Sprintf("(%d, %d)", r.Status, r.Size))
+		e.out.Count(fmt.Sprintf("batch:%d", r.Status), 1)
+	}
+	e.emit(fmt.Sprintf("Bd [%s] %s", strings.Join(ts, "; "), hx.Bool(skip)), fmt.Sprintf("XOBatch [%s]", strings.Join(rs, "; ")),
+		fmt.Sprintf("B%v[%s]", skip, strings.Join(cs, ",")))
+	e.out.Count("op:batchdelete", 1)
+	if skip {
+		e.out.Count("batch:skip-cookie-check", 1)
+	}
 }
 
 func (e *env) rawRead(id uint64, cookie uint32, rd bool, nilOpt bool) {
@@ -395,27 +586,28 @@ func (e *env) rawRead(id uint64, cookie uint32, rd bool, nilOpt bool) {
 		opt = &storage.ReadOption{ReadDeleted: rd}
 	}
 	count, err := e.s.ReadVolumeNeedle(e.vid, n, opt)
-	v := blankView(cookie)
-	if err == nil {
-		var tc, tu byte
-		if n.Ttl != nil {
-			tc, tu = n.Ttl.Count, n.Ttl.Unit
-		}
-		v = viewTerm(uint32(n.Cookie), int32(n.Size), n.Data, n.Flags, n.Name, n.Mime, n.Pairs, n.LastModified, tc, tu)
-		if len(n.Data) > 0 {
-			e.served = true
-		}
+	// the needle as the call left it, on every path (an expired needle has been filled in)
+	var tc, tu byte
+	if n.Ttl != nil {
+		tc, tu = n.Ttl.Count, n.Ttl.Unit
 	}
-	e.emit(fmt.Sprintf("RawRead %d %d %s", id, cookie, hx.Bool(rd)), fmt.Sprintf("ORead %s %s %s", errClass(err), zterm(int64(count)), v),
+	v := viewTerm(uint32(n.Cookie), int32(n.Size), n.Data, n.Flags, n.Name, n.Mime, n.Pairs, n.LastModified, tc, tu)
+	if err == nil && len(n.Data) > 0 {
+		e.served = true
+	}
+	e.emit(fmt.Sprintf("Rr %d %d %s", id, cookie, hx.Bool(rd)), fmt.Sprintf("oR %s %s %s", errClass(err), zterm(int64(count)), v),
 		fmt.Sprintf("R%d.%x.%v", id, cookie, rd))
 	e.out.Count("op:rawread", 1)
 	e.out.Count("rawread:"+errClass(err), 1)
+	if err == storage.ErrorNotFound && n.Size != 0 {
+		e.out.Count("rawread:expired", 1)
+	}
 }
 
 func (e *env) rawDelete(id uint64, cookie uint32) {
 	n := &needle.Needle{Id: types.NeedleId(id), Cookie: types.Cookie(cookie)}
 	size, err := e.s.DeleteVolumeNeedle(e.vid, n)
-	e.emit(fmt.Sprintf("RawDelete %d %d", id, cookie), fmt.Sprintf("ODelete %s %s", errClass(err), zterm(int64(size))), fmt.Sprintf("X%d.%x", id, cookie))
+	e.emit(fmt.Sprintf("Rd %d %d", id, cookie), fmt.Sprintf("oX %s %s", errClass(err), zterm(int64(size))), fmt.Sprintf("X%d.%x", id, cookie))
 	e.out.Count("op:rawdelete", 1)
 	e.out.Count("rawdelete:"+errClass(err), 1)
 }
@@ -426,20 +618,20 @@ func (e *env) setNWOD(b bool) {
 	} else {
 		hx.Must(e.s.MarkVolumeWritable(e.vid))
 	}
-	e.emit("SetNoWriteOrDelete "+hx.Bool(b), "OUnit", "RO"+hx.Bool(b))
+	e.emit("Ro "+hx.Bool(b), "oU", "RO"+hx.Bool(b))
 	e.out.Count("op:mark-readonly", 1)
 }
 
 func (e *env) setNWCD(b bool) {
 	e.s.GetVolume(e.vid).VerifSetNoWriteCanDelete(b)
-	e.emit("SetNoWriteCanDelete "+hx.Bool(b), "OUnit", "RC"+hx.Bool(b))
+	e.emit("Rc "+hx.Bool(b), "oU", "RC"+hx.Bool(b))
 	e.out.Count("op:mark-nowrite-candelete", 1)
 }
 
 func (e *env) begin(caseNo int) {
 	e.vid = needle.VolumeId(caseNo + 1)
 	hx.Must(e.s.AddVolume(e.vid, "", storage.NeedleMapInMemory, "000", "", 0, 0, types.HardDriveType))
-	e.evs, e.impl, e.canon, e.served, e.nops = nil, nil, nil, false, 0
+	e.evs, e.impl, e.canon, e.served, e.nops, e.clock = nil, nil, nil, false, 0, 0
 	dictReset()
 }
 
@@ -455,11 +647,28 @@ func (e *env) end(keys []uint64, kind string, t0 time.Time) {
 			fin = append(fin, fmt.Sprintf("(%d, None)", k))
 		}
 	}
-	if time.Since(t0) > 20*time.Second {
-		panic("case took longer than 20 s: the logical clock of the model assumes no TTL (>= 1 minute) can expire inside a case")
+	// the .idx file as it is on disk
+	raw, err := os.ReadFile(v.FileName(".idx"))
+	hx.Must(err)
+	if len(raw)%types.NeedleMapEntrySize != 0 {
+		panic("ragged .idx file")
 	}
-	term := fmt.Sprintf("(%s{| evs := [%s]; impl := [%s]; fin_dat := %d; fin_nm := [%s] |})%%N",
-		strings.Join(dictLets, ""), strings.Join(e.evs, "; "), strings.Join(e.impl, "; "), datSize, strings.Join(fin, "; "))
+	var ix []string
+	for i := 0; i+types.NeedleMapEntrySize <= len(raw); i += types.NeedleMapEntrySize {
+		key, off, size := idx.IdxFileEntry(raw[i : i+types.NeedleMapEntrySize])
+		ix = append(ix, fmt.Sprintf("(%d, %d, %s)", uint64(key), off.ToActualOffset(), zterm(int64(size))))
+	}
+	e.out.Count("idx-entries", len(ix))
+	if time.Since(t0) > 20*time.Second {
+		panic("case took longer than 20 s: clock jumps and TTLs are whole minutes, the real time a case takes must stay far below one")
+	}
+	var tab []string
+	for _, z := range gzOrder {
+		tab = append(tab, fmt.Sprintf("(%s, %s)", dataTerm([]byte(z)), dataTerm(gzPlain[z])))
+	}
+	term := fmt.Sprintf("(%s{| evs := [%s]; impl := [%s]; gz_tab := [%s]; fin_dat := %d; fin_nm := [%s]; fin_idx := [%s] |})%%N",
+		strings.Join(dictLets, ""), strings.Join(e.evs, "; "), strings.Join(e.impl, "; "), strings.Join(tab, "; "), datSize,
+		strings.Join(fin, "; "), strings.Join(ix, "; "))
 	e.out.Add(term, strings.Join(e.canon, ";"), e.served, kind)
 	e.out.Count("ops", e.nops)
 	// The volume is left open (2 descriptors) and removed with the temp dir at exit:
@@ -469,28 +678,47 @@ func (e *env) end(keys []uint64, kind string, t0 time.Time) {
 // ---------- generators ----------
 
 var (
-	keys     = []uint64{1, 2, 3, 7}
-	cookies  = []uint32{0x11, 0x2222, 0xfffffffe}
-	sizes    = []int{0, 1, 7, 8, 9, 255, 256, 4096}
-	names    = []string{"", "a", "n1", "name-xyz", strings.Repeat("q", 255)}
-	mimes    = []string{"", "text/x-a", "image/x-b", "application/octet-stream", "application/octet-stream;x=1", strings.Repeat("m", 255)}
-	ctypes   = []string{"", "text/x-a", "image/x-b", "application/octet-stream"}
-	lastmods = []uint64{0, 1, 12345, 4294967295, 1099511627775}
-	tss      = []uint64{1, 12345, 4294967295}
-	ttls     = [][2]byte{{0, 0}, {3, 1}, {0, 1}, {5, 2}, {7, 0}, {255, 6}}
-	ttlStrs  = []string{"", "3m", "0m", "5h", "2d"}
-	ttlOf    = map[string][2]byte{"": {0, 0}, "3m": {3, 1}, "0m": {0, 1}, "5h": {5, 2}, "2d": {2, 3}}
-	pairSets = []map[string]string{nil, {"K1": "v1"}, {"K1": "v1", "K2": "w"}, {"K2": "zz"}}
+	keys    = []uint64{1, 2, 3, 7}
+	cookies = []uint32{0x11, 0x2222, 0xfffffffe}
+	sizes   = []int{0, 1, 7, 8, 9, 255, 256, 4096}
+	names   = []string{"", "a", "n1", "name-xyz", strings.Repeat("q", 255), "a.css", "B.PDF", "x.zz9", ".css", strings.Repeat("r", 128), strings.Repeat("s", 127)}
+	// through PostHandler only: too long for CreateNeedleFromRequest to keep
+	longName  = strings.Repeat("q", 256)
+	longCtype = "text/" + strings.Repeat("m", 295)
+	mimes     = []string{"", "text/x-a", "image/x-b", "application/octet-stream", "application/octet-stream;x=1", strings.Repeat("m", 255), "text/css; charset=utf-8"}
+	ctypes    = []string{"", "text/x-a", "image/x-b", "application/octet-stream", "text/css; charset=utf-8", "application/pdf"}
+	urlNames  = []string{"u.css", "v.zz9", "w", "z.pdf"}
+	lastmods  = []uint64{0, 1, 12345, 4294967295, 1099511627775}
+	tss       = []uint64{1, 12345, 4294967295}
+	ttls      = [][2]byte{{0, 0}, {3, 1}, {0, 1}, {5, 2}, {7, 0}, {255, 6}, {1, 1}}
+	ttlStrs   = []string{"", "3m", "0m", "5h", "2d", "1m"}
+	ttlOf     = map[string][2]byte{"": {0, 0}, "3m": {3, 1}, "0m": {0, 1}, "5h": {5, 2}, "2d": {2, 3}, "1m": {1, 1}}
+	jumps     = []uint64{1, 1, 2, 3, 299, 300}
+	pairSets  = []map[string]string{nil, {"K1": "v1"}, {"K1": "v1", "K2": "w"}, {"K2": "zz"}}
+	// json.Marshal gives 65536 bytes: one more than CreateNeedleFromRequest keeps
+	hugePairs = map[string]string{"K1": strings.Repeat("v", 65536-9)}
+	brokenGz  = []byte{31, 139, 8, 0, 1, 2, 3, 4, 5, 6, 7}
 )
 
+// the model's mime_by_ext table against the real mime package
+func checkMimeTable() {
+	want := map[string]string{".css": "text/css; charset=utf-8", ".pdf": "application/pdf", ".CSS": "text/css; charset=utf-8", ".PDF": "application/pdf", ".zz9": ""}
+	for ext, m := range want {
+		if got := mime.TypeByExtension(ext); got != m {
+			panic(fmt.Sprintf("mime.TypeByExtension(%q) = %q here; the model (mime_by_ext) says %q", ext, got, m))
+		}
+	}
+}
+
 type gen struct {
-	r          *hx.Rng
-	allowEmpty bool
-	allowMeta  bool
-	tag        int
-	assigned   map[uint64]uint32
-	written    []nd // needles written through Write/Post (as the model sees them)
-	uploads    []up
+	r        *hx.Rng
+	dirty    map[uint64]bool // keys that may be written with an empty payload / a metadata-only change
+	empty    bool
+	meta     bool
+	tag      int
+	assigned map[uint64]uint32
+	written  []nd // needles written through Write/Post (as the model sees them)
+	uploads  []up
 }
 
 func (g *gen) cookieFor(id uint64) uint32 {
@@ -504,12 +732,12 @@ func (g *gen) cookieFor(id uint64) uint32 {
 	return c
 }
 
-func (g *gen) payload(compressed bool) []byte {
+func (g *gen) payload(id uint64, compressed bool) []byte {
 	size := sizes[g.r.Intn(len(sizes))]
 	if size == 4096 && g.r.Chance(2, 3) {
 		size = sizes[g.r.Intn(len(sizes)-1)] // the 4 KiB payload is the expensive one for the model side
 	}
-	if size == 0 && !g.allowEmpty {
+	if size == 0 && !(g.empty && g.dirty[id]) {
 		size = 1 + g.r.Intn(12)
 	}
 	if size == 0 {
@@ -517,6 +745,9 @@ func (g *gen) payload(compressed bool) []byte {
 	}
 	g.tag = (g.tag + 1) % 256
 	if compressed && g.r.Bool() {
+		if g.r.Chance(1, 6) {
+			return noteGz(append([]byte{}, brokenGz...))
+		}
 		return gz(pat(g.tag, 1+g.r.Intn(20)))
 	}
 	return pat(g.tag, size)
@@ -533,7 +764,7 @@ func (g *gen) needle() nd {
 	// a duplicate of an earlier write: same id, cookie, bytes
 	if len(g.written) > 0 && g.r.Chance(1, 4) {
 		n := g.written[g.r.Intn(len(g.written))]
-		if g.allowMeta {
+		if g.meta && g.dirty[n.id] {
 			switch g.r.Intn(5) {
 			case 0:
 				n.name = []byte(g.r.PickStr(names))
@@ -560,15 +791,19 @@ func (g *gen) needle() nd {
 			n.flags |= bit
 		}
 	}
-	n.data = g.payload(n.flags&0x01 != 0)
+	n.data = g.payload(id, n.flags&0x01 != 0)
 	if n.flags&0x02 != 0 || g.r.Chance(1, 4) {
 		n.name = []byte(g.r.PickStr(names))
 	}
 	if n.flags&0x04 != 0 || g.r.Chance(1, 4) {
 		n.mime = []byte(g.r.PickStr(mimes))
+	} else if g.r.Chance(1, 12) {
+		n.mime = bytes.Repeat([]byte("m"), 256+44*g.r.Intn(2)) // no FlagHasMime: never written
 	}
 	if n.flags&0x20 != 0 || g.r.Chance(1, 4) {
 		n.pairs = pairsJSON(pairSets[g.r.Intn(len(pairSets))])
+	} else if g.r.Chance(1, 40) {
+		n.pairs = bytes.Repeat([]byte("p"), 65536) // no FlagHasPairs: never written
 	}
 	if n.flags&0x08 != 0 || g.r.Chance(1, 4) {
 		n.lastmod = g.r.PickU64(lastmods)
@@ -583,7 +818,7 @@ func (g *gen) needle() nd {
 func (g *gen) upload() up {
 	if len(g.uploads) > 0 && g.r.Chance(1, 4) {
 		p := g.uploads[g.r.Intn(len(g.uploads))]
-		if g.allowMeta {
+		if g.meta && g.dirty[p.id] {
 			switch g.r.Intn(4) {
 			case 0:
 				p.name = g.r.PickStr(names)
@@ -603,30 +838,56 @@ func (g *gen) upload() up {
 	p.gz = g.r.Chance(1, 4)
 	if p.gz {
 		g.tag = (g.tag + 1) % 256
-		p.data = gz(pat(g.tag, g.r.Intn(20)))
+		if g.r.Chance(1, 8) {
+			p.data = noteGz(append([]byte{}, brokenGz...))
+		} else {
+			p.data = gz(pat(g.tag, 1+g.r.Intn(20)))
+		}
 	} else {
-		p.data = g.payload(false)
+		p.data = g.payload(id, false)
 	}
 	p.name = g.r.PickStr(names)
 	p.ctype = g.r.PickStr(ctypes)
 	p.pairs = pairSets[g.r.Intn(len(pairSets))]
+	switch g.r.Intn(40) {
+	case 0:
+		p.name = longName
+	case 1:
+		p.ctype = longCtype
+	case 2:
+		p.pairs = hugePairs
+	}
 	p.ts = g.r.PickU64(tss)
 	p.ttl = g.r.PickStr(ttlStrs)
 	t := ttlOf[p.ttl]
 	p.tc, p.tu = t[0], t[1]
+	p.fsync = g.r.Chance(1, 6)
 	return p
 }
 
 // the needle CreateNeedleFromRequest builds (only used to remember what was uploaded so
 // that Write can later duplicate it; the Coq model derives it on its own)
 func needleOfUpload(p up) nd {
-	n := nd{id: p.id, cookie: p.cookie, data: p.data, name: []byte(p.name), lastmod: p.ts, tc: p.tc, tu: p.tu}
-	n.flags = 0x02 | 0x04 | 0x08
-	if p.ctype != "" && p.ctype != "application/octet-stream" {
-		n.mime = []byte(p.ctype)
+	n := nd{id: p.id, cookie: p.cookie, data: p.data, lastmod: p.ts, tc: p.tc, tu: p.tu}
+	n.flags = 0x08
+	if len(p.name) < 256 {
+		n.name = []byte(p.name)
+		n.flags |= 0x02
 	}
-	if len(p.pairs) > 0 {
-		n.pairs = pairsJSON(p.pairs)
+	mtype := ""
+	if i := strings.LastIndex(p.name, "."); i > 0 {
+		mtype = mime.TypeByExtension(strings.ToLower(p.name[i:]))
+	}
+	mt := ""
+	if p.ctype != "" && p.ctype != "application/octet-stream" && p.ctype != mtype {
+		mt = p.ctype
+	}
+	if len(mt) < 256 {
+		n.mime = []byte(mt)
+		n.flags |= 0x04
+	}
+	if pj := pairsJSON(p.pairs); len(pj) > 0 && len(pj) < 65536 {
+		n.pairs = pj
 		n.flags |= 0x20
 	}
 	if p.gz {
@@ -638,41 +899,73 @@ func needleOfUpload(p up) nd {
 	return n
 }
 
+func (g *gen) getx(e *env, id uint64) {
+	r := g.r
+	form := r.Intn(5)
+	name := ""
+	if form == 4 {
+		name = r.PickStr(urlNames)
+	}
+	e.getx(id, g.cookieFor(id), r.Chance(1, 10), r.Chance(1, 2), r.Chance(1, 3), form, name)
+}
+
 func randomCase(e *env, r *hx.Rng) string {
-	g := &gen{r: r, assigned: map[uint64]uint32{}}
+	g := &gen{r: r, assigned: map[uint64]uint32{}, dirty: map[uint64]bool{}}
 	kind := "clean"
 	switch k := r.Intn(20); {
 	case k < 5:
-		g.allowEmpty = true
+		g.empty = true
 		kind = "with-empty"
 	case k < 9:
-		g.allowMeta = true
+		g.meta = true
 		kind = "with-meta-dup"
 	case k < 10:
-		g.allowEmpty, g.allowMeta = true, true
+		g.empty, g.meta = true, true
 		kind = "with-empty+meta-dup"
+	}
+	if g.empty || g.meta {
+		// the findings are confined to some keys; the others have to answer per specification
+		for len(g.dirty) == 0 {
+			for _, k := range keys {
+				if r.Chance(1, 3) {
+					g.dirty[k] = true
+				}
+			}
+		}
+		kind += fmt.Sprintf("-on-%d-keys", len(g.dirty))
 	}
 	nops := r.Range(4, 30)
 	for j := 0; j < nops; j++ {
 		id := keys[r.Intn(len(keys))]
 		switch k := r.Intn(100); {
-		case k < 22:
+		case k < 20:
 			n := g.needle()
 			e.write(n)
 			g.written = append(g.written, n)
-		case k < 36:
+		case k < 33:
 			p := g.upload()
 			e.post(p)
 			g.uploads = append(g.uploads, p)
 			g.written = append(g.written, needleOfUpload(p))
-		case k < 58:
+		case k < 45:
 			e.get(id, g.cookieFor(id), r.Chance(1, 8))
-		case k < 70:
-			e.del(id, g.cookieFor(id))
-		case k < 84:
+		case k < 57:
+			g.getx(e, id)
+		case k < 66:
+			e.del(id, g.cookieFor(id), r.Intn(3))
+		case k < 76:
 			e.rawRead(id, g.cookieFor(id), r.Chance(1, 8), r.Bool())
-		case k < 92:
+		case k < 82:
 			e.rawDelete(id, g.cookieFor(id))
+		case k < 88:
+			var fids []fidc
+			for n := r.Range(1, 3); n > 0; n-- {
+				bid := keys[r.Intn(len(keys))]
+				fids = append(fids, fidc{bid, g.cookieFor(bid)})
+			}
+			e.batch(fids, r.Chance(1, 4))
+		case k < 93:
+			e.advance(jumps[r.Intn(len(jumps))])
 		case k < 98:
 			e.setNWOD(r.Chance(1, 2))
 		default:
@@ -692,7 +985,7 @@ func randomCase(e *env, r *hx.Rng) string {
 func witnessEmpty(e *env) {
 	e.write(nd{id: 1, cookie: 0xa, flags: 0x02, name: []byte("nm")})
 	e.get(1, 0xb, false)
-	e.del(1, 0xa)
+	e.del(1, 0xa, 0)
 	e.get(1, 0xa, false)
 }
 
@@ -702,27 +995,103 @@ func witnessUnchanged(e *env) {
 	e.get(4, 0xc, false)
 }
 
-// bounded-exhaustive: every sequence of [length] mutating operations over 2 keys x 2 cookies
-// (upload / DELETE through the handlers), each followed by a GET of all four fids.
+// the history of c01_example_per_key: key 1 under finding 0, key 2 untouched until a BatchDelete
+// names both
+func witnessPerKey(e *env) {
+	e.write(nd{id: 1, cookie: 10, flags: 0x02, name: []byte("nm")})
+	e.write(nd{id: 2, cookie: 20, data: []byte{1, 2, 3}, flags: 14, name: []byte("a.css"), lastmod: 100})
+	e.get(1, 11, false)
+	e.getx(2, 20, false, false, true, 0, "")
+	e.write(nd{id: 2, cookie: 20, data: []byte{4, 5}, flags: 14, name: []byte("n2"), mime: []byte("t/b"), lastmod: 200})
+	e.del(2, 21, 0)
+	e.batch([]fidc{{2, 21}, {2, 20}}, false)
+	e.batch([]fidc{{1, 11}, {2, 20}}, false)
+	e.get(2, 20, false)
+}
+
+// TTL expiry, executed: a 3-minute blob is readable after 2 minutes and gone after 3 through every
+// entry point; nothing can delete it then; an overwrite brings the id back
+func witnessExpiry(e *env) {
+	e.post(up{id: 3, cookie: 0x33, data: []byte("short-lived"), name: "t.css", ts: 500, ttl: "3m", tc: 3, tu: 1})
+	e.advance(2)
+	e.rawRead(3, 0x33, false, true)
+	e.get(3, 0x33, false)
+	e.advance(1)
+	e.rawRead(3, 0x33, false, true)
+	e.rawRead(3, 0x33, true, false)
+	e.get(3, 0x33, false)
+	e.getx(3, 0x33, false, false, true, 4, "u.css")
+	e.del(3, 0x33, 0)
+	e.batch([]fidc{{3, 0x33}}, false)
+	e.post(up{id: 3, cookie: 0x33, data: []byte("again"), name: "t.css", ts: 501})
+	e.get(3, 0x33, false)
+	e.batch([]fidc{{3, 0x34}}, true)
+	e.get(3, 0x33, false)
+}
+
+// bounded-exhaustive: every sequence of [length] operations from a 12-symbol alphabet over
+// 2 keys x 2 cookies, each followed by a GET of the fids of the keys it names; a full sweep of
+// both layers at the end.
 var exKeys = []uint64{1, 2}
 var exCookies = []uint32{0x11, 0x2222}
 
+const exSymbols = 12
+
 func exhaustiveCase(e *env, index, length int) {
+	ro := false
 	for pos := 0; pos < length; pos++ {
-		sym := index % 8
-		index /= 8
-		id, cookie := exKeys[sym%2], exCookies[(sym/2)%2]
-		if sym < 4 {
-			tag := pos / 2 // positions 0,1 upload the same bytes (unchanged path), 2,3 other bytes (overwrite)
-			e.post(up{id: id, cookie: cookie, data: pat(tag+1, 3), name: fmt.Sprintf("n%d", tag), ctype: "text/x-a", ts: uint64(100 + tag)})
-		} else {
-			e.del(id, cookie)
+		sym := index % exSymbols
+		index /= exSymbols
+		tag := pos / 2 // positions 0,1 carry the same bytes (unchanged path), 2,3 other bytes (overwrite)
+		upl := func(id uint64, cookie uint32) up {
+			return up{id: id, cookie: cookie, data: pat(tag+1, 3), name: fmt.Sprintf("n%d", tag), ctype: "text/x-a", ts: uint64(100 + tag)}
 		}
-		for _, k := range exKeys {
+		touched := []uint64{1}
+		switch sym {
+		case 0:
+			e.post(upl(1, exCookies[0]))
+		case 1:
+			e.post(upl(1, exCookies[1]))
+		case 2:
+			e.post(upl(2, exCookies[0]))
+			touched = []uint64{2}
+		case 3:
+			e.del(1, exCookies[0], 0)
+		case 4:
+			e.del(1, exCookies[1], 0)
+		case 5:
+			e.del(2, exCookies[0], 0)
+			touched = []uint64{2}
+		case 6: // empty payload (finding 0)
+			p := upl(1, exCookies[0])
+			p.data = nil
+			e.post(p)
+		case 7: // Store.DeleteVolumeNeedle: no cookie check
+			e.rawDelete(1, exCookies[1])
+		case 8: // read-only toggle
+			ro = !ro
+			e.setNWOD(ro)
+			touched = nil
+		case 9: // Store.WriteVolumeNeedle: the bytes of this position under another name (finding 1 after a Post)
+			e.write(nd{id: 1, cookie: exCookies[0], data: pat(tag+1, 3), flags: 0x0e, name: []byte("w"), mime: []byte("text/x-a"), lastmod: uint64(100 + tag)})
+		case 10: // BatchDelete: a foreign cookie for key 1 ends the batch before key 2
+			e.batch([]fidc{{1, exCookies[1]}, {2, exCookies[0]}}, false)
+			touched = []uint64{1, 2}
+		case 11: // the other cookie through the storage API (rejected while the id is known)
+			e.write(nd{id: 2, cookie: exCookies[1], data: pat(tag+1, 3), flags: 0x0a, name: []byte("v"), lastmod: 7})
+			touched = []uint64{2}
+		}
+		for _, k := range touched {
 			for _, c := range exCookies {
 				e.get(k, c, false)
 			}
 		}
+	}
+	for _, k := range exKeys {
+		for _, c := range exCookies {
+			e.get(k, c, false)
+		}
+		e.rawRead(k, exCookies[0], false, true)
 	}
 }
 
@@ -733,6 +1102,7 @@ func main() {
 	// glog registers its flags with the repo's own flag package
 	hx.Must(fla9.Set("alsologtostderr", "false"))
 	hx.Must(fla9.Set("stderrthreshold", "FATAL"))
+	checkMimeTable()
 	dir, err := os.MkdirTemp("", "c01-vol")
 	hx.Must(err)
 	defer os.RemoveAll(dir)
@@ -748,28 +1118,51 @@ func main() {
 	}()
 	e := &env{s: s, vs: weed_server.NewVerifVolumeServer(s, 256<<20), out: out}
 
+	if *mode == "probe-long-mime" {
+		// Not part of the check: shows what Store.WriteVolumeNeedle does with a needle outside
+		// wf_needle (a 300-byte mime under FlagHasMime), the precondition of the C01 model.
+		e.begin(0)
+		x := &needle.Needle{Id: 1, Cookie: 0x11, Flags: 0x04, Data: []byte("abc"), Mime: bytes.Repeat([]byte("m"), 300)}
+		x.Checksum = needle.NewCRC(x.Data)
+		_, werr := s.WriteVolumeNeedle(e.vid, x, false)
+		datSize, _, _ := s.GetVolume(e.vid).FileStat()
+		rd := &needle.Needle{Id: 1, Cookie: 0x11}
+		cnt, rerr := s.ReadVolumeNeedle(e.vid, rd, nil)
+		fmt.Fprintf(os.Stderr, "write err=%v Size=%d MimeSize=%d dat=%d (superblock 8 + GetActualSize(Size) %d); read count=%d err=%v\n",
+			werr, x.Size, x.MimeSize, datSize, needle.GetActualSize(x.Size, needle.Version3), cnt, rerr)
+		return
+	}
+
 	if *mode == "exhaustive" {
-		length := 4
+		length := 3
 		if out.Tier == "thorough" {
-			length = 5
+			length = 4
 		}
 		total := 1
 		for i := 0; i < length; i++ {
-			total *= 8
+			total *= exSymbols
 		}
-		out.Rule = fmt.Sprintf("bounded-exhaustive: all %d sequences of %d mutating operations (upload via PostHandler / DELETE via DeleteHandler) over 2 keys x 2 cookies, each operation followed by a GET of all four fids; shard k covers indices [k*n, (k+1)*n); non-trivial = some GET served a non-empty body; distinct = canonical op list", total, length)
+		out.Rule = fmt.Sprintf("bounded-exhaustive: all %d sequences of %d operations from a 12-symbol alphabet over 2 keys x 2 cookies (upload k1/cookie A, k1/B, k2/A; DELETE k1/A, k1/B, k2/A; empty upload; Store.DeleteVolumeNeedle; read-only toggle; Store.WriteVolumeNeedle with the same bytes and another name; BatchDelete [k1/B, k2/A]; Store.WriteVolumeNeedle k2/B), each operation followed by a GET of the named keys with both cookies, a sweep of all fids through GET and ReadVolumeNeedle at the end; indices beyond the total are sequences of length+1 sampled by index stride; shard k covers indices [k*n, (k+1)*n); non-trivial = some GET served a non-empty body; distinct = canonical op list", total, length)
 		shard := int(out.Seed % 1000)
+		seedBase := int(out.Seed / 1000)
 		for i := 0; i < out.N; i++ {
 			t0 := time.Now()
 			e.begin(i)
-			exhaustiveCase(e, (shard*out.N+i)%total, length)
+			ix := shard*out.N + i
+			if ix < total {
+				exhaustiveCase(e, ix, length)
+			} else {
+				// a seed-dependent sample of the next length
+				big := total * exSymbols
+				exhaustiveCase(e, ((ix-total)*7919+seedBase*104729)%big, length+1)
+			}
 			e.end(exKeys, "exhaustive", t0)
 		}
 		out.Write()
 		return
 	}
 
-	out.Rule = "cases 0,1 = witnesses of findings 0 and 1; then random histories (4..30 ops + a final GET/read sweep) of Write (Store.WriteVolumeNeedle, random flag sets), Post, Get, Del (HTTP handlers), RawRead, RawDelete, mark-read-only over 4 keys x 3 cookies, payload sizes {0,1,7,8,9,255,256,4096} + gzip streams, names/mimes/pairs/last-modified/ttl from small universes incl. 255-byte boundaries; 1/4 of writes repeat an earlier (id,cookie,bytes): exactly in 'clean' cases, with changed metadata in 'with-meta-dup' cases; empty payloads only in 'with-empty' cases; non-trivial = some read/GET served a non-empty payload; distinct = canonical op list"
+	out.Rule = "cases 0..3 = witnesses (finding 0, finding 1, per-key confinement, TTL expiry); then random histories (4..30 ops + a final GET/read sweep) of Write (Store.WriteVolumeNeedle, random flag sets), Post, Get, GET/HEAD in 5 URL forms with and without Accept-Encoding, Del (HTTP, also with ts= / type=replicate), BatchDelete (1..3 fids, with and without SkipCookieCheck), RawRead, RawDelete, mark-read-only, clock jumps of 1..300 minutes, over 4 keys x 3 cookies, payload sizes {0,1,7,8,9,255,256,4096} + gzip streams (also a broken one), names/mimes/pairs/last-modified/ttl from small universes incl. 127/128/255-byte names, names with known/unknown extensions, 256-byte names, 300-byte content types and 64 KiB pairs through Post; 1/4 of writes repeat an earlier (id,cookie,bytes): exactly in 'clean' cases, with changed metadata on the chosen keys in 'with-meta-dup' cases; empty payloads only on the chosen keys of 'with-empty' cases; non-trivial = some read/GET served a non-empty payload; distinct = canonical op list"
 	root := hx.NewRng(out.Seed)
 	for i := 0; i < out.N; i++ {
 		r := root.Fork()
@@ -783,6 +1176,12 @@ func main() {
 		case 1:
 			witnessUnchanged(e)
 			kind = "witness-unchanged-drops-metadata"
+		case 2:
+			witnessPerKey(e)
+			kind = "witness-per-key"
+		case 3:
+			witnessExpiry(e)
+			kind = "witness-ttl-expiry"
 		default:
 			kind = randomCase(e, r)
 		}
